@@ -13,4 +13,11 @@ EXTRA = dict(
 
 
 def check(tier, seed):
-    return check_property("C02", UNITS, tier, seed, extra=EXTRA)
+    from pyvc import bounded
+    lines, ev, err = bounded.async_episodes("C02", tier, seed)
+    extra = dict(EXTRA)
+    extra["bounded"] = list(extra.get("bounded", [])) + [ev]
+    for l in ev.get("known_finding_lines", []):
+        print(l)
+    code = check_property("C02", UNITS, tier, seed, extra=extra)
+    return bounded.finish_with_bounded("C02", code, lines, err)
